@@ -40,7 +40,9 @@ var (
 
 func initCerts() {
 	certOnce.Do(func() {
-		mlog.SetLevel(mlog.Silent)
+		if os.Getenv("C10_DEBUG") == "" {
+			mlog.SetLevel(mlog.Silent)
+		}
 		caKey, _ := ecdsa.GenerateKey(elliptic.P256(), rand.Reader)
 		caT := &x509.Certificate{SerialNumber: big.NewInt(1), Subject: pkix.Name{CommonName: "verif-c10-ca"},
 			NotBefore: time.Now().Add(-time.Hour), NotAfter: time.Now().Add(24 * time.Hour), IsCA: true,
@@ -140,6 +142,8 @@ func h2Goroutines() []gor {
 				g.site = "mutex"
 			case strings.Contains(blk, "h2.(*relay).processFrame"):
 				g.site = "process-frame"
+			case strings.Contains(blk, ").ReadFrame("):
+				g.site = "inline-read" // the reader itself sits in ReadFrame, outside its select
 			default:
 				g.site = "select"
 			}
@@ -397,6 +401,7 @@ type session struct {
 	returnedAt time.Time
 	proxyErr   error
 
+	openBlock map[string][]byte       // the unsent rest of a header block a peer has started
 	henc    map[string]*hpack.Encoder // one HPACK encoder (dynamic table) per sending peer
 	hbuf    map[string]*bytes.Buffer
 	termAt  time.Time // time of the last terminating event / unstall after it
@@ -466,6 +471,7 @@ func begin(mode, variant string) (*session, error) {
 	s.sstat.typ = map[http2.FrameType]int{}
 	s.henc = map[string]*hpack.Encoder{}
 	s.hbuf = map[string]*bytes.Buffer{}
+	s.openBlock = map[string][]byte{}
 	for _, d := range []string{"c2s", "s2c"} {
 		s.hbuf[d] = &bytes.Buffer{}
 		s.henc[d] = hpack.NewEncoder(s.hbuf[d])
